@@ -930,6 +930,32 @@ def _drain(it, v):
                 return [it.call_callable(f, [x]) for x in src]
             if op == 'filter':
                 return [x for x in src if it.truth(it.call_callable(f, [Ref(Cell(x, 'filter-arg'), ())]))]
+            if op in ('flat_map', 'filter_map', 'flatten'):
+                out = []
+                for x in src:
+                    r = x if op == 'flatten' else it.call_callable(f, [x])
+                    if isinstance(r, Enum) and r.name in ('Ok', 'Some'):
+                        out.append(r.f[0])            # Result / Option as IntoIterator: one item or none
+                    elif isinstance(r, Enum) and r.name in ('Err', 'None'):
+                        pass
+                    elif op == 'filter_map':
+                        raise Unsupported('filter_map closure result %r' % (r,))
+                    else:
+                        out.extend(_drain(it, r))
+                return out
+            if op in ('take_while', 'map_while'):
+                out = []
+                for x in src:
+                    if op == 'take_while':
+                        if not it.truth(it.call_callable(f, [Ref(Cell(x, 'take_while-arg'), ())])):
+                            break
+                        out.append(x)
+                    else:
+                        r = it.call_callable(f, [x])
+                        if r.name != 'Some':
+                            break
+                        out.append(r.f[0])
+                return out
             if op == 'enumerate':
                 return [Agg(None, (i, x)) for i, x in enumerate(src)]
             if op == 'rev':
@@ -969,10 +995,15 @@ def _stage(base, op, f):
     return IterV('stage', (), 0, (base, op, f))
 
 
-@pattern(r'^<.* as Iterator>::(map|filter)::<.*>$')
+@pattern(r'^<.* as Iterator>::(map|filter|flat_map|filter_map|take_while|map_while)::<.*>$')
 def iter_stage_fn(it, args, callee):
-    op = 'map' if '::map::<' in callee else 'filter'
+    op = re.search(r' as Iterator>::(\w+)::<', callee).group(1)
     return _stage(args[0], op, args[1])
+
+
+@pattern(r'^<.* as Iterator>::flatten$')
+def iter_flatten(it, args, callee):
+    return _stage(args[0], 'flatten', None)
 
 
 @pattern(r'^<.* as Iterator>::(enumerate|rev|cloned|copied|peekable|fuse|by_ref)$')
@@ -1073,7 +1104,7 @@ def iter_fold(it, args, callee):
     return acc
 
 
-@pattern(r"^<(std::iter::|core::iter::)?(Enumerate|Rev|Map|Filter|Cloned|Copied|Skip|Take|Zip|Chain|Peekable)<.*> as Iterator>::next$")
+@pattern(r"^<(std::iter::|core::iter::)?(Enumerate|Rev|Map|Filter|FlatMap|FilterMap|Flatten|TakeWhile|MapWhile|Cloned|Copied|Skip|Take|Zip|Chain|Peekable)<.*> as Iterator>::next$")
 def stage_next(it, args, callee):
     r = args[0]
     v = rd(r)
@@ -1087,7 +1118,7 @@ def stage_next(it, args, callee):
     return Some(v.items[v.pos])
 
 
-@pattern(r"^<(std::iter::|core::iter::)?(Enumerate|Rev|Map|Filter|Cloned|Copied|Skip|Take|Zip|Chain|Peekable)<.*> as IntoIterator>::into_iter$")
+@pattern(r"^<(std::iter::|core::iter::)?(Enumerate|Rev|Map|Filter|FlatMap|FilterMap|Flatten|TakeWhile|MapWhile|Cloned|Copied|Skip|Take|Zip|Chain|Peekable)<.*> as IntoIterator>::into_iter$")
 def stage_into_iter(it, args, callee):
     return args[0]
 
@@ -1134,7 +1165,54 @@ def hashmap_iter(it, args, callee):
         return IterV('into', tuple(Agg(None, (Ref(r.cell, r.path + (('mk', i),)), Ref(r.cell, r.path + (('mv', i),)))) for i in order), 0)
 
 
-@pattern(r'^(std::collections::)?HashMap::<.*>::(entry|retain|extend|with_capacity|insert_unique_unchecked|get_or_insert_with|get_key_value)(::<.*>)?$')
+@pattern(r'^(std::collections::)?HashMap::<.*>::entry$')
+def hashmap_entry(it, args, callee):
+    r, k = args
+    while isinstance(rd(r), Ref):
+        r = rd(r)
+    return Agg('HashMapEntry', (r, k))
+
+
+def _entry_slot(it, e, make):
+    r, k = e.f
+    m = rd(r)
+    for i, (kk, vv) in enumerate(m.items):
+        if M.key_eq(it, kk, k):
+            return Ref(r.cell, r.path + (('mv', i),))
+    wr(r, MapV(m.items + ((k, make()),)))
+    return Ref(r.cell, r.path + (('mv', len(m.items)),))
+
+
+@pattern(r'^(std::collections::hash_map::)?Entry::<.*>::(or_insert|or_default)$')
+def entry_or_insert(it, args, callee):
+    if callee.endswith('or_default'):
+        raise Unsupported('Entry::or_default')
+    return _entry_slot(it, args[0], lambda: args[1])
+
+
+@pattern(r'^(std::collections::hash_map::)?Entry::<.*>::or_insert_with::<.*>$')
+def entry_or_insert_with(it, args, callee):
+    return _entry_slot(it, args[0], lambda: it.call_callable(args[1], []))
+
+
+@pattern(r'^(std::collections::hash_map::)?Entry::<.*>::and_modify::<.*>$')
+def entry_and_modify(it, args, callee):
+    r, k = args[0].f
+    m = rd(r)
+    for i, (kk, vv) in enumerate(m.items):
+        if M.key_eq(it, kk, k):
+            it.call_callable(args[1], [Ref(r.cell, r.path + (('mv', i),))])
+            break
+    return args[0]
+
+
+@pattern(r'^<(std::boxed::)?Box<.*> as Drop>::drop$')
+def box_drop(it, args, callee):
+    # deallocation only: the content has been dropped by the drop glue before
+    return UNIT
+
+
+@pattern(r'^(std::collections::)?HashMap::<.*>::(retain|extend|with_capacity|insert_unique_unchecked|get_or_insert_with|get_key_value)(::<.*>)?$')
 def hashmap_other(it, args, callee):
     if '::with_capacity' in callee:
         return MapV(())
@@ -1396,7 +1474,7 @@ def atomic_new(it, args, callee):
     return Agg('Atomic', (args[0],))
 
 
-@pattern(r'^(std::sync::atomic::|core::sync::atomic::)?Atomic(Bool|Usize|U64|U32|I64|I32|Isize|U8|::<\w+>)::(load|store|swap|fetch_add|fetch_sub|fetch_or|fetch_and|compare_exchange|compare_exchange_weak|compare_and_swap)$')
+@pattern(r'^(std::sync::atomic::|core::sync::atomic::)?Atomic(Bool|Usize|U64|U32|I64|I32|Isize|U8|::<\w+>)::(load|store|swap|fetch_add|fetch_sub|fetch_or|fetch_and|fetch_xor|fetch_max|fetch_min|fetch_update|compare_exchange|compare_exchange_weak|compare_and_swap)$')
 def atomic_ops(it, args, callee):
     m = re.search(r'Atomic(\w+|::<\w+>)::(\w+)$', callee)
     kind, op = m.group(1), m.group(2)
@@ -1422,8 +1500,12 @@ def atomic_ops(it, args, callee):
     if op in ('fetch_add', 'fetch_sub'):
         wr(inner, it.binop('Add' if op == 'fetch_add' else 'Sub', old, args[1], ty))
         return old
-    if op in ('fetch_or', 'fetch_and'):
-        wr(inner, it.binop('BitOr' if op == 'fetch_or' else 'BitAnd', old, args[1], ty))
+    if op in ('fetch_or', 'fetch_and', 'fetch_xor'):
+        wr(inner, it.binop({'fetch_or': 'BitOr', 'fetch_and': 'BitAnd', 'fetch_xor': 'BitXor'}[op], old, args[1], ty))
+        return old
+    if op in ('fetch_max', 'fetch_min'):
+        if it.truth(it.binop('Lt' if op == 'fetch_max' else 'Gt', old, args[1], ty)):
+            wr(inner, args[1])
         return old
     if op.startswith('compare_exchange'):
         if it.truth(it.binop('Eq', old, args[1], ty)):
@@ -1768,6 +1850,17 @@ def formatter_write_trait(it, args, callee):
 @pattern(r"^<(std::string::)?String as (core::fmt::|std::fmt::)?Write>::write_(str|char|fmt)$")
 def string_write_trait(it, args, callee):
     s = rd(args[0])
+    if callee.endswith('write_fmt') and isinstance(s, Str) and s.concrete():
+        # write!(buf, "{}", d) of a decimal with a symbolic mantissa: the buffer becomes (bytes ++) the text of d
+        fa = args[1]
+        if len(fa.f) == 2 and tuple(fa.f[0]) in ((0xC0,), (0xC0, 0)) and len(fa.f[1]) == 1:
+            v = fa.f[1][0].f[1]
+            d = deref_all(v)
+            if fa.f[1][0].f[0] == 'display' and isinstance(d, Dec) and is_sym(d.m):
+                ds = M.dec_to_string(it, [v], 'to_string')
+                if isinstance(ds, DecStr):
+                    wr(args[0], ds if len(s.b) == 0 else CatStr(s.b, ds))
+                    return Ok(UNIT)
     out = list(sbytes(s, 'write'))
     if callee.endswith('write_char'):
         out.extend(M.encode_char(it, args[1]))
